@@ -201,4 +201,45 @@ theorem pqPosition_one_iff {x : PQ} (hwf : WF compare_func x.queue) {h : Nat} (h
       rw [hmin.2 e he]; simp
     rw [this]; rfl
 
+/-- **position = index of delivery**: when a get delivers another entry, the position of every handle that stays queued
+    goes down by exactly one (and the delivered entry was at position 1, `pqPosition_one_iff`); by induction a handle at
+    position `k` is delivered by the `k`-th get from now, if nothing else changes -/
+theorem pqPosition_after_get {x : PQ} (hwf : WF compare_func x.queue) (hpos : 0 < x.queue.count) {h : Nat}
+    (hk : h ∈ keys (abs x.queue)) (hne : h ≠ (x.queue.tag 1).key) :
+    ∃ q', HashHeap.dequeue compare_func x.queue = .ok (q', some (x.queue.tag 1)) ∧ WF compare_func q' ∧
+      h ∈ keys (abs q') ∧ pqPosition { x with queue := q' } h + 1 = pqPosition x h := by
+  obtain ⟨q', hrun, hwf', hperm, _⟩ := HashHeap.dequeue_abs hwf hpos
+  have hk' : h ∈ keys (abs q') := by
+    have := (HashHeap.keys_perm hperm h).1 hk
+    simp only [keys, List.map_cons, List.mem_cons] at this
+    rcases this with e | e
+    · exact absurd e hne
+    · exact e
+  obtain ⟨t0, hl0, hp0⟩ := pqPosition_spec hwf hk
+  obtain ⟨t1, hl1, hp1⟩ := pqPosition_spec (x := { x with queue := q' }) hwf' hk'
+  have hl := (HashHeap.lookup_after_dequeue hwf hwf' (KPQ.norm (x.queue.tag 1)) hperm).2 h hne
+  have ht : t1 = t0 := by
+    have : some t1 = some t0 := by rw [← hl1, ← hl0]; exact hl
+    injection this
+  subst ht
+  refine ⟨q', hrun, hwf', hk', ?_⟩
+  rw [hp0, hp1]
+  have hmem1 : t1 ∈ abs q' := ((HashHeap.lookup_eq_some_iff hwf'.keys_nodup h t1).1 hl1).1
+  -- the delivered entry goes strictly before every entry that stays
+  have hfirst : compare_func (KPQ.norm (x.queue.tag 1)) t1 = true := by
+    have hmin := HashHeap.root_isMin_abs hwf hpos
+    have hes : t1 ∈ abs x.queue := hperm.mem_iff.2 (List.mem_cons_of_mem _ hmem1)
+    have hkk : (KPQ.norm (x.queue.tag 1)).key ≠ t1.key := by
+      have : t1.key = h := ((HashHeap.lookup_eq_some_iff hwf'.keys_nodup h t1).1 hl1).2
+      rw [this]; exact fun e => hne e.symm
+    rcases TotalOnKeys.total (lt := compare_func) _ _ hkk with hlt | hlt
+    · exact hlt
+    · rw [hmin.2 t1 hes] at hlt; cases hlt
+  have hlen : ((abs x.queue).filter (fun e => compare_func e t1)).length =
+      ((KPQ.norm (x.queue.tag 1) :: abs q').filter (fun e => compare_func e t1)).length :=
+    (hperm.filter _).length_eq
+  show ((abs q').filter (fun e => compare_func e t1)).length + 1 + 1 = _
+  rw [hlen, List.filter_cons, if_pos hfirst]
+  rfl
+
 end CimbaModel.Sim
